@@ -118,6 +118,63 @@ def thorough_extras(prop: str, repo: str | None) -> None:
     if repo is None:
         from .selftest import runner
         runner.informational(prop)
+        _refactoring_sample(prop, path)
+
+
+def _refactoring_sample(prop: str, evidence_path: str, limit: int = 32) -> None:
+    """thorough tier (d), informational: a seeded sample of behaviour-preserving rewrites of /repo/src (tools/benignsweep.py
+    operators) on scratch copies; this property's check must stay silent on every one of them"""
+    import concurrent.futures as cf
+    import json as _json
+    import random
+    import shutil
+    import subprocess
+    import tempfile
+    try:
+        tools = os.path.join(os.path.dirname(os.path.dirname(os.path.abspath(__file__))), "tools")
+        if tools not in sys.path:
+            sys.path.insert(0, tools)
+        import benignsweep as bs
+        root = os.path.join(bs.REPO, "src", "joserfc")
+        ops = ["rename-local", "if-swap", "ret-local", "ne-flip", "cmp-mirror", "and-split", "add-else", "eq-swap", "update-setitem", "isinstance-split", "extract-arg"]
+        work = []
+        for d, _ds, fs in os.walk(root):
+            for f in sorted(fs):
+                if f.endswith(".py") and f not in bs.SKIP_FILES:
+                    rel = os.path.relpath(os.path.join(d, f), root)
+                    for v in bs.variants_of(os.path.join(d, f), ops):
+                        work.append((rel, v))
+        random.Random(int(os.environ.get("VERIF_SEED", "0") or 0) + sum(map(ord, prop))).shuffle(work)
+        work = work[:limit]
+        verif = os.path.dirname(os.path.dirname(os.path.abspath(__file__)))
+
+        def one(job):
+            rel, v = job
+            tmp = tempfile.mkdtemp(prefix="jv-refactor-")
+            try:
+                shutil.copytree(os.path.join(bs.REPO, "src"), os.path.join(tmp, "src"), ignore=shutil.ignore_patterns("__pycache__", "*.egg-info"))
+                with open(os.path.join(tmp, "src", "joserfc", rel), "w") as fh:
+                    fh.write(v["src"])
+                env = dict(os.environ, JV_CACHE=os.path.join(tmp, ".jvcache"))
+                p = subprocess.run([sys.executable, "-m", "jv", "check", prop, "--repo", tmp, "--no-write"], cwd=verif, env=env, capture_output=True, text=True, timeout=600)
+                return {"file": rel, "op": v["op"], "what": v["what"][:80], "rc": p.returncode}
+            finally:
+                shutil.rmtree(tmp, ignore_errors=True)
+        with cf.ThreadPoolExecutor(max_workers=16) as ex:
+            res = list(ex.map(one, work))
+        bad = [r for r in res if r["rc"] != 0]
+        print(f"refactoring-sample[{prop}] {len(res) - len(bad)}/{len(res)} behaviour-preserving rewrites leave the check silent")
+        for r in bad[:5]:
+            print(f"  refactoring-sample alarm (checker defect, not a verdict): {r}")
+        if os.path.exists(evidence_path):
+            ev = _json.load(open(evidence_path))
+            ev["coverage"]["refactoring_sample"] = {"variants": len(res), "silent": len(res) - len(bad), "alarms": bad[:10],
+                                                    "meaning": "semantics-preserving rewrites of the analysed source; any alarm is a defect of the checker"}
+            tmpf = evidence_path + ".tmp%d" % os.getpid()
+            _json.dump(ev, open(tmpf, "w"), indent=1, default=str)
+            os.replace(tmpf, evidence_path)
+    except Exception as e:  # informational only
+        print(f"refactoring-sample[{prop}] skipped: {type(e).__name__}: {e}")
 
 
 def run_replay(path: str, repo: str | None) -> int:
